@@ -86,6 +86,11 @@ def run(chk):
         "subgraph errors, authorization, custom field renderers, extensions, rate limiting and hard fetch errors (ResolveDeferError) are outside the model",
         "the planner / normaliser (astnormalization defer passes, defer_info_collector, path builder) are not modelled: they are covered "
         "by the direct spec checks on the engine only; defer_plan_wf states what they are assumed to produce",
+        "reconstruction is proved layer by layer (reconstruct_initial / reconstruct_layer / reconstruct_total) for the straight-line renderer of Spec.v section 4 "
+        "(c_initial / c_batch / r_items), which is tied to the implementation and to the full model by the frame correspondence on every strict_clean case "
+        "(corr:C10/clean) -- not by a Coq proof; NOT mechanised: that member-order differences left by earlier layers do not affect later merges (sequential "
+        "composition of reconstruct_layer), that defers with a dead anchor contribute nothing, and that the executor's completion orders are exactly the "
+        "parent-before-child linearisations of the live descriptors; the driver evaluates the composed statement (client_result vs C02 complete) on every clean case",
         "spec on the engine: harness-side frame parser, merger (path ++ subPath) and comparison (harness/c10lab/check.go); the reference "
         "for 'the same query without @defer' is bin/model_exec (Coq-extracted executor, mono mode) and the gateway's own non-deferred answer; "
         "completion orders are driven through an http.RoundTripper gate with a quiescence timeout (the order actually observed is what is recorded)",
